@@ -457,8 +457,8 @@ Lemma witness_three_dialects :
 Proof. vm_compute. exact (conj eq_refl (conj eq_refl eq_refl)). Qed.
 Lemma witness_carries :
   let h := mkHit (bs "s1"%bs) (bs "q1"%bs) 20 10 5 6 (bs "1e-5"%bs) (bs "50"%bs) in
-  let a := row_attrs (firstn 2 HEADER_blast ++ firstn 2 (skipn 13 HEADER_blast) ++ firstn 2 (skipn 15 HEADER_blast)
-                      ++ firstn 2 (skipn 19 HEADER_blast))
+  let a := row_attrs (match headers_from false Blast [bs "qseqid"%bs; bs "qgi"%bs; bs "qstart"%bs; bs "qend"%bs; bs "sstart"%bs;
+                                                      bs "send"%bs; bs "evalue"%bs; bs "bitscore"%bs] with Ok hs => hs | Err _ => [] end)
              [bs "q1"%bs; bs "qgi"%bs; bs "5"%bs; bs "6"%bs; bs "20"%bs; bs "10"%bs; bs "1e-5"%bs; bs "50"%bs] in
   carries Blast (dict_set (bs "sseqid"%bs) (AStr (bs "s1"%bs)) a) h /\
   sstrand_agrees h (assoc (bs "sstrand"%bs) a) = true /\ ident_ok a = true /\ spec_strand h = bs "-"%bs.
